@@ -1,6 +1,7 @@
 package main
 
 import (
+	"strings"
 	"flag"
 	"fmt"
 	"os"
@@ -29,6 +30,7 @@ func main() {
 	mutant := flag.String("mutant", "", "internal: apply the named self-test mutant as an overlay and print findings")
 	listMut := flag.Bool("list-mutants", false, "list self-test mutants")
 	verbose := flag.Bool("v", false, "print every obligation")
+	xref := flag.String("xref", "", "development aid: run a cross-reference sweep (used-after-error) over the comma-separated packages and print candidates")
 	flag.Parse()
 	if *verif == "" {
 		exe, _ := os.Executable()
@@ -38,6 +40,15 @@ func main() {
 		for _, m := range mutants {
 			fmt.Println(m.Property, m.Name, m.ExpectRule)
 		}
+		return
+	}
+	if *xref != "" {
+		p, err := Load(*repo, nil)
+		if err != nil {
+			fmt.Println("load:", err)
+			os.Exit(4)
+		}
+		xrefUsedAfterError(p, strings.Split(*xref, ","))
 		return
 	}
 	seed, _ := strconv.Atoi(os.Getenv("VERIF_SEED"))
